@@ -135,6 +135,12 @@ func (s *Set) SortedItems() []Object {
 			return h1.StrValue < h2.StrValue
 		}
 		if h1.FltValue != h2.FltValue {
+			// NaN is unordered with respect to every float: place it first so
+			// that the result does not depend on map iteration order
+			nan1, nan2 := h1.FltValue != h1.FltValue, h2.FltValue != h2.FltValue
+			if nan1 || nan2 {
+				return nan1 && !nan2
+			}
 			return h1.FltValue < h2.FltValue
 		}
 		return false
